@@ -16,7 +16,7 @@ T7 the scheduler itself releases the observation's batch reservation when the wo
 import ast
 
 from ..index import AnalysisError, is_spawn, walk_no_nested
-from ..norm import Canon, Lit, Logic, ProvCanon, effects_of_event
+from ..norm import Canon, Lit, Logic, ProvCanon, effects_of_event, path_effects, effects_along
 from ..paths import Frame, cached_paths, contains_yield, first_segment, is_const_true
 from . import cluster_units as CU
 from .common import (bound_args, borrow, call_name, enclosing_loops, iteration_segments, path_must,
@@ -60,7 +60,7 @@ def t1(repo, res, canon, pc, logic):
     n = 0
     stored, sched = "HotBuffer.observations['stored']", "HotBuffer.observations['scheduled']"
     for p in paths:
-        effs = [ef for e in p.events for ef in effects_of_event(canon, e)]
+        effs = path_effects(canon, p.events)
         pops = [ef for ef in effs if ef.loc == stored and ef.kind == 'pop']
         apps = [ef for ef in effs if ef.loc == sched and ef.kind == 'append']
         rets = [e.node for e in p.events if e.kind == 'stmt' and isinstance(e.node, ast.Return) and e.node.value is not None]
@@ -83,8 +83,8 @@ def t1(repo, res, canon, pc, logic):
     for p in sp:
         apps = []
         spawns = []
-        for e in p.events:
-            for ef in effects_of_event(canon, e):
+        for e, _efs in effects_along(canon, p.events):
+            for ef in _efs:
                 if ef.loc == QUEUE and ef.kind == 'append':
                     apps.append(ef.arg)
             if e.kind == 'stmt':
@@ -245,7 +245,7 @@ def t2(repo, res, canon, pc, logic):
             if how == 'raise':
                 continue
             spawned = any(stmt_contains(e, lambda x: x is sp) for e in seg)
-            effs = [ef for e in seg for ef in effects_of_event(canon, e)]
+            effs = path_effects(canon, seg)
             if R == sched:
                 removed = [ef for ef in effs if ef.loc == sched and ef.kind in ('pop', 'del', 'clear', 'popitem')]
                 if removed and not spawned:
@@ -337,7 +337,7 @@ def t3(repo, res, canon, pc, logic):
     n_close = 0
     rel_ok = True
     for p in gp:
-        closes = [(i, ef) for i, e in enumerate(p.events) for ef in effects_of_event(canon, e)
+        closes = [(i, ef) for i, (e, _efs) in enumerate(effects_along(canon, p.events)) for ef in _efs
                   if ef.loc == QUEUE and ef.kind == 'remove']
         marks = [i for i, e in enumerate(p.events) if stmt_contains(
             e, lambda x: isinstance(x, ast.Call) and call_name(x) == 'mark_observation_finished')]
@@ -429,7 +429,7 @@ def t6(repo, res, canon, pc):
         why = 'the task table is built from %s' % src
         if ok:
             for seg, how in iteration_segments(f, lp):
-                stores = [ef for e in seg for ef in effects_of_event(canon, e) if ef.kind == 'store' and ef.arg == '%s.id' % tv]
+                stores = [ef for ef in path_effects(canon, seg) if ef.kind == 'store' and ef.arg == '%s.id' % tv]
                 if how != 'back' or len(stores) != 1:
                     ok, why = False, 'a finished task can be left out of (or entered twice into) the task table'
     (res.ok if ok else res.bad)('C04.T6', f, loops[0] if loops else None, 'one task-table entry per key of tasks.finished',
